@@ -872,8 +872,14 @@ def check(env, wdir, scn, res, solo, refs, which):
                 targets.append(m["out"] or "a.out")   # no link without all objects
             elif m["mode"] == "S" and tu["output"]:
                 opened = any(lab == tu["cc1"] and k == "fopen-w" for lab, k, path in st["opens"])
-                if not opened:
-                    targets.append(tu["output"])      # cc1 died before it opened its output
+                how = next((h for lab, h in st["ended"] if lab == tu["cc1"]), "")
+                io_fault = any(lab == tu["cc1"] and w.split(" ")[0] in ("write", "close") for lab, w in st["fired"])
+                diagnosed = how.startswith(("after-exit-", "after-_exit-")) and not io_fault
+                # a compile error (any phase, code generation included) must leave the output alone whenever
+                # the compiler chooses to open it; only a writer that was killed or hit an injected write
+                # error after opening its output may leave a partial file
+                if diagnosed or not opened:
+                    targets.append(tu["output"])
             for t in targets:
                 if t.startswith("/"):
                     continue
